@@ -1,7 +1,7 @@
 """Rules on sqlparse/filters and formatter wiring (C06, C08, C10)."""
 import ast
 
-from .astutil import Guards, src, is_name, is_attr, local_defs, enum_paths, exits_always
+from .astutil import Guards, src, is_name, is_attr, local_defs, enum_paths, exits_always, alias_map, canon_text
 from .cg import get_cg
 from .fold import TT, NotConst, ClsRef
 from .fx import effects_of
@@ -238,11 +238,13 @@ def mutation_sites(ctx, cls):
 def ws_proved(ctx, f, node, target, index_expr, gd):
     """Is the token denoted by `target`/(list, index) proved whitespace by the guards dominating `node`?
     target: expression text of the token (or None); index_expr: (list_src, index_src) or None"""
-    facts = [a for a in gd.facts(node) if a[0] != '|']
+    amap = alias_map(f.node)
+    facts = [(canon_text(a[0], amap), a[1]) for a in gd.facts(node) if a[0] != '|']
     pos = {e for e, p in facts if p}
     # a) same subscript expression
     if index_expr is not None:
         lst, idx = index_expr
+        lst = canon_text(lst, amap)
         if f'{lst}[{idx}].is_whitespace' in pos:
             return True, f'guard {lst}[{idx}].is_whitespace'
         # b) pair partner: idx, tok = L.token_prev/next(...)
